@@ -489,37 +489,7 @@ func runC10(w *core.World, r *core.Report) {
 
 	checkListingStateReinitialised(w, r, "R14")
 
-	// ---- R10 ----------------------------------------------------------------------------------
-	if get := w.Func("db/fs", "(*fsDb).Get"); get != nil {
-		r.Touch(core.QName(get))
-		n, bad := 0, ""
-		var badPos token.Pos
-		for _, ret := range successReturns(get) {
-			v := core.ReturnValue(ret, 0)
-			if v == nil || core.IsNilConst(v) {
-				continue
-			}
-			n++
-			roots, _ := core.DeepSources(v, nil)
-			for _, rt := range roots {
-				okRoot := false
-				if c, i, ok := core.ExtractOf(rt); ok && i == 0 && core.IsCallTo(c, "io/ioutil.ReadAll", "io.ReadAll", "os.ReadFile", "io/ioutil.ReadFile") {
-					okRoot = true
-				}
-				if cst, ok := rt.(*ssa.Const); ok && cst.IsNil() {
-					okRoot = true
-				}
-				if !okRoot {
-					bad = fmt.Sprintf("a returned value derives from %T, not from a file read of this call", rt)
-					badPos = ret.Pos()
-				}
-			}
-		}
-		r.Check(bad == "" && n > 0, "R10", "db/fs.(*fsDb).Get: values come from the store", badPos, fmt.Sprintf("%d success return(s) return the bytes read from the file", n),
-			"the filesystem back end can answer a Get from a copy kept beside the store: after a Put through another key form (language fallback) or another store object the copy is stale and the back ends diverge: "+bad)
-	} else {
-		r.Undecided("R10", "db/fs.(*fsDb).Get", token.NoPos, "anchor not found")
-	}
+	checkFsGetReturnsFileBytes(w, r, "R10", "the filesystem back end can answer a Get from a copy kept beside the store: after a Put through another key form (language fallback) or another store object the copy is stale and the back ends diverge: ")
 	checkDumpKeepsSelection(w, r, "R11")
 	checkSelectionWriters(w, r, "R12")
 	checkBase64Agreement(w, r, "R13")
@@ -750,4 +720,40 @@ func checkScopedTypes(w *core.World, r *core.Report, rule string) {
 		}
 	}
 
+}
+
+// checkFsGetReturnsFileBytes (C10 R10, C07 R10): every value a success return of the filesystem
+// back end's Get hands out is the result of a file read made in that call, itself - not a memoised
+// copy and not a trimmed or otherwise transformed derivative.
+func checkFsGetReturnsFileBytes(w *core.World, r *core.Report, rule, consequence string) {
+	if get := w.Func("db/fs", "(*fsDb).Get"); get != nil {
+		r.Touch(core.QName(get))
+		n, bad := 0, ""
+		var badPos token.Pos
+		for _, ret := range successReturns(get) {
+			v := core.ReturnValue(ret, 0)
+			if v == nil || core.IsNilConst(v) {
+				continue
+			}
+			n++
+			roots, _ := core.DeepSources(v, nil)
+			for _, rt := range roots {
+				okRoot := false
+				if c, i, ok := core.ExtractOf(rt); ok && i == 0 && core.IsCallTo(c, "io/ioutil.ReadAll", "io.ReadAll", "os.ReadFile", "io/ioutil.ReadFile") {
+					okRoot = true
+				}
+				if cst, ok := rt.(*ssa.Const); ok && cst.IsNil() {
+					okRoot = true
+				}
+				if !okRoot {
+					bad = fmt.Sprintf("a returned value derives from %T, not from a file read of this call", rt)
+					badPos = ret.Pos()
+				}
+			}
+		}
+		r.Check(bad == "" && n > 0, rule, "db/fs.(*fsDb).Get: values come from the store", badPos, fmt.Sprintf("%d success return(s) return the bytes read from the file", n),
+			consequence+bad)
+	} else {
+		r.Undecided(rule, "db/fs.(*fsDb).Get", token.NoPos, "anchor not found")
+	}
 }
